@@ -89,8 +89,12 @@ func (e *Enc) allocRef(st *State, prefix string, reach Term) (Term, *State) {
 	al := e.Get(st, "$alloc")
 	e.sc.Assert(and("(not (= "+r+" 0))", "(not (select "+al+" "+r+"))"))
 	st = e.Set(st, "$alloc", app("store", al, r, "true"))
-	st = e.Set(st, "$priv", app("store", e.Get(st, "$priv"), r, "true"))
-	e.allocRefs = append(e.allocRefs, r)
+	i := len(e.allocs)
+	e.allocs = append(e.allocs, allocInfo{ref: r, typ: e.pendingAllocType, comps: e.pendingAllocComps})
+	e.allocIdx[r] = i
+	e.pendingAllocComps, e.pendingAllocType = nil, nil
+	e.comps.Register(e.privComp(i), "Bool")
+	st = e.Set(st, e.privComp(i), "true")
 	return r, st
 }
 
@@ -173,6 +177,14 @@ func (e *Enc) instr(fr *Frame, in ssa.Instruction, st *State, rb Term) (*State, 
 			return st, rb
 		}
 		var r Term
+		if at, isArr := t.Underlying().(*types.Array); isArr {
+			e.pendingAllocComps = []string{e.elemComp(at.Elem())}
+		} else if isStruct(t) {
+			e.pendingAllocComps = []string{"F:" + typeKey(t) + "."}
+		} else {
+			e.pendingAllocComps = []string{e.cellComp(t)}
+		}
+		e.pendingAllocType = x.Type()
 		r, st = e.allocRef(st, "new_"+x.Name(), rb)
 		pv := Val{T: r, Typ: x.Type()}
 		if at, isArr := t.Underlying().(*types.Array); isArr {
@@ -251,7 +263,7 @@ func (e *Enc) instr(fr *Frame, in ssa.Instruction, st *State, rb Term) (*State, 
 			e.assumeTypeInv(fr.vals[x], "true")
 			e.assumeAllocated(fr.vals[x], st)
 			if a.Ref != "" {
-				e.assumeNotPrivate(fr.vals[x], st)
+				e.assumeNotPrivateFrom(fr.vals[x], st, a.Ref)
 			}
 		case token.NOT:
 			e.set(fr, x, Val{T: not(v.T)})
@@ -281,7 +293,7 @@ func (e *Enc) instr(fr *Frame, in ssa.Instruction, st *State, rb Term) (*State, 
 		e.checkStoreFrame(fr, a, st, rb, x.Pos())
 		// closures stored into locals keep their static identity via the frame map
 		if a.Ref != "" {
-			st = e.Leak(st, v) // a reference stored into the heap is no longer private
+			st = e.Contain(st, a.Ref, v) // stays private only inside a private object
 		}
 		st = e.Store(st, a, e.coerce(v, a.Typ))
 		if v.Clo != nil && a.Ref == "" && len(a.Path) == 0 {
@@ -330,22 +342,49 @@ func (e *Enc) instr(fr *Frame, in ssa.Instruction, st *State, rb Term) (*State, 
 		for _, b := range x.Bindings {
 			bind = append(bind, e.value(fr, b))
 		}
-		fr.vals[x] = Val{T: e.funcRef(fn), Typ: x.Type(), Clo: &Closure{Fn: fn, Bind: bind}}
+		// a closure value is a fresh reference whose captured variables are recoverable from it
+		// (cloFV_<fn>_<k>), so that a later call through a stored function value can be related to
+		// what was captured
+		var r Term
+		e.pendingAllocComps = []string{"-"}
+		e.pendingAllocType = x.Type()
+		r, st = e.allocRef(st, "closure_"+x.Name(), rb)
+		e.sc.Assert(eq(app(e.sc.DeclFun("cloFn", []string{"Int"}, "Int"), r), e.funcRef(fn)))
+		for k, b := range bind {
+			if b.Tuple != nil || k >= len(fn.FreeVars) {
+				continue
+			}
+			f := e.sc.DeclFun(fmt.Sprintf("cloFV_%s_%d", fn.String(), k), []string{"Int"}, e.sortOf(fn.FreeVars[k].Type()))
+			e.sc.Assert(eq(app(f, r), b.T))
+			// captured variables that are never assigned after the closure is created: their value at
+			// creation time is recoverable from the closure value (cloFVinit)
+			if et, ok := effectivelyFinal(fn, k, x.Bindings[k]); ok {
+				if a := e.addrOfPointer(b); a != nil {
+					g := e.sc.DeclFun(fmt.Sprintf("cloFVinit_%s_%d", fn.String(), k), []string{"Int"}, e.sortOf(et))
+					e.sc.Assert(eq(app(g, r), e.Load(st, a)))
+				}
+			}
+		}
+		fr.vals[x] = Val{T: r, Typ: x.Type(), Clo: &Closure{Fn: fn, Bind: bind}}
 		return st, rb
 	case *ssa.MakeMap:
 		var r Term
-		r, st = e.allocRef(st, "map_"+x.Name(), rb)
 		mt := x.Type().Underlying().(*types.Map)
-		d, _ := e.mapComps(mt)
+		d, mvc := e.mapComps(mt)
+		e.pendingAllocComps = []string{d, mvc}
+		e.pendingAllocType = x.Type()
+		r, st = e.allocRef(st, "map_"+x.Name(), rb)
 		inner := "(Array " + e.sortOf(mt.Key()) + " Bool)"
 		st = e.Set(st, d, app("store", e.Get(st, d), r, "((as const "+inner+") false)"))
 		fr.vals[x] = Val{T: r, Typ: x.Type()}
 		return st, rb
 	case *ssa.MakeSlice:
 		var r Term
-		r, st = e.allocRef(st, "mkslice_"+x.Name(), rb)
 		stp := x.Type().Underlying().(*types.Slice)
 		c := e.elemComp(stp.Elem())
+		e.pendingAllocComps = []string{c}
+		e.pendingAllocType = x.Type()
+		r, st = e.allocRef(st, "mkslice_"+x.Name(), rb)
 		arr := "(Array Int " + e.sortOf(stp.Elem()) + ")"
 		st = e.Set(st, c, app("store", e.Get(st, c), r, "((as const "+arr+") "+e.sorts.Zero(stp.Elem())+")"))
 		ln := e.value(fr, x.Len).T
@@ -389,7 +428,8 @@ func (e *Enc) instr(fr *Frame, in ssa.Instruction, st *State, rb Term) (*State, 
 		e.safety(fr, "safety.mapnil", rb, "(not (= "+m.T+" 0))", x.Pos())
 		e.checkMapFrame(fr, m, st, rb, x.Pos())
 		kt := e.coerce(k, mt.Key())
-		st = e.Leak(st, k, v)
+		st = e.Contain(st, m.T, k)
+		st = e.Contain(st, m.T, v)
 		dd := e.Get(st, d)
 		st = e.Set(st, d, app("store", dd, m.T, app("store", app("select", dd, m.T), kt, "true")))
 		vh := e.Get(st, vv)
@@ -820,7 +860,7 @@ func (e *Enc) sliceOp(fr *Frame, x *ssa.Slice, st *State, rb Term) Val {
 }
 
 func (e *Enc) modAllHeap() func(string) bool {
-	return func(c string) bool { return !strings.HasPrefix(c, "L:") }
+	return e.modAllHeapFor(true)
 }
 
 // checkStoreFrame / checkMapFrame: hooks for per-store frame obligations (C17: a mechanism's
@@ -852,4 +892,67 @@ func fnPkgPath(fn *ssa.Function) string {
 		fn = fn.Parent()
 	}
 	return ""
+}
+
+// effectivelyFinal: free variable k of closure fn is a captured cell that is stored to exactly once
+// (its initialisation in the enclosing function) and never inside the closure.
+func effectivelyFinal(fn *ssa.Function, k int, binding ssa.Value) (types.Type, bool) {
+	if k >= len(fn.FreeVars) {
+		return nil, false
+	}
+	fv := fn.FreeVars[k]
+	pt, ok := fv.Type().Underlying().(*types.Pointer)
+	if !ok {
+		return nil, false
+	}
+	var storesIn func(f *ssa.Function, v ssa.Value) int
+	storesIn = func(f *ssa.Function, v ssa.Value) int {
+		n := 0
+		refs := v.Referrers()
+		if refs == nil {
+			return 99
+		}
+		for _, r := range *refs {
+			switch x := r.(type) {
+			case *ssa.Store:
+				if x.Addr == v {
+					n++
+				} else {
+					return 99
+				}
+			case *ssa.UnOp, *ssa.DebugRef:
+			case *ssa.MakeClosure:
+				// captured further: check the nested closure too
+				inner := x.Fn.(*ssa.Function)
+				for i, b := range x.Bindings {
+					if b == v && i < len(inner.FreeVars) {
+						n += storesIn(inner, inner.FreeVars[i])
+					}
+				}
+			case *ssa.FieldAddr, *ssa.IndexAddr:
+				return 99
+			default:
+				return 99
+			}
+		}
+		return n
+	}
+	if storesIn(fn, fv) != 0 {
+		return nil, false
+	}
+	if binding != nil {
+		al, ok := binding.(*ssa.Alloc)
+		if !ok {
+			// a free variable of the enclosing closure passed down
+			if pfv, ok := binding.(*ssa.FreeVar); ok {
+				_ = pfv
+				return pt.Elem(), false
+			}
+			return nil, false
+		}
+		if storesIn(al.Parent(), al) != 1 {
+			return nil, false
+		}
+	}
+	return pt.Elem(), true
 }
